@@ -41,6 +41,7 @@ import (
 	"github.com/haqq-network/haqq/encoding"
 	haqqtypes "github.com/haqq-network/haqq/types"
 	coinomicstypes "github.com/haqq-network/haqq/x/coinomics/types"
+	evmtypes "github.com/haqq-network/haqq/x/evm/types"
 	feemarkettypes "github.com/haqq-network/haqq/x/feemarket/types"
 	liquidvestingtypes "github.com/haqq-network/haqq/x/liquidvesting/types"
 )
@@ -63,6 +64,7 @@ type Config struct {
 	Elasticity    uint32 `json:"elasticity"`
 	ChangeDenom   uint32 `json:"change_denom"`
 	BlockMaxGas   int64  `json:"block_max_gas"`
+	FeeEnableHeight int64 `json:"fee_enable_height,omitempty"`
 	UnbondingSecs int64  `json:"unbonding_secs"`
 
 	SlashWindow      int64  `json:"slash_window"`
@@ -492,12 +494,26 @@ func (w *World) buildGenesis() ([]byte, error) {
 	fm.MinGasMultiplier = mustDec(cfg.MinGasMult)
 	fm.ElasticityMultiplier = cfg.Elasticity
 	fm.BaseFeeChangeDenominator = cfg.ChangeDenom
+	fm.EnableHeight = cfg.FeeEnableHeight
 	fmg := feemarkettypes.DefaultGenesisState()
 	fmg.Params = fm
 	if err := fmg.Validate(); err != nil {
 		return nil, fmt.Errorf("feemarket genesis: %w", err)
 	}
 	gs[feemarkettypes.ModuleName] = cdc.MustMarshalJSON(fmg)
+
+	if k := cfg.Flag("genesis_drop_precompile"); k > 0 {
+		// start with one of the available EVM extensions inactive
+		eg := evmtypes.DefaultGenesisState()
+		var act []string
+		for i, a := range evmtypes.AvailableEVMExtensions {
+			if int64(i+1) != k {
+				act = append(act, a)
+			}
+		}
+		eg.Params.ActivePrecompiles = act
+		gs[evmtypes.ModuleName] = cdc.MustMarshalJSON(eg)
+	}
 
 	cp := coinomicstypes.DefaultParams()
 	cp.EnableCoinomics = cfg.Coinomics
